@@ -24,15 +24,21 @@ RULE = ("TimeDelta::parse is executed symbolically from the MIR of the current t
 MANIFEST = {
     "engine": "M",
     "technique": "symbolic execution of rustc MIR of TimeDelta::parse over a string domain (concrete length, symbolic ASCII bytes), "
-                 "z3 (LIA) decides every panic path condition and the sum-of-terms law; native replay with catch_unwind",
+                 "z3 (LIA) decides every panic path condition and the sum-of-terms law; symbolic execution of DateTime::strftime / "
+                 "DateTime::parse from MIR over shape-concrete digit strings with chrono's format interpreter replaced by a validated contract "
+                 "model, z3 decides the round-trip and no-panic queries; native replay with catch_unwind",
     "design_ref": "DESIGN.md 3/C18",
     "level_text": "for every ASCII string of length <= 4 (quick) / 6 (thorough) TimeDelta::parse returns a value or an error (no path to a "
                   "panic is satisfiable), and for every well-formed duration string built from <= 2 (quick) / 3 (thorough) terms with "
-                  "1-2 digit numbers, optional sign and the ten units it returns exactly the sum of its terms",
+                  "1-2 digit numbers, optional sign and the ten units it returns exactly the sum of its terms; for every date-time of 1678..2262 "
+                  "at the four units the text written by strftime with the default format (and with each listed format, for date-times whose "
+                  "unprinted fields are zero) is accepted by DateTime::parse and yields the same timestamp, and DateTime::parse reaches no "
+                  "panic on any digit string of the shape of a listed format",
     "level_note": "assumes one-line specifications of 15 std string functions (char_indices, is_ascii_digit/alphabetic, String push/clear/"
                   "as_str/is_empty, str == literal, str[a..b], str::parse::<i64>, Result::unwrap) and chrono::Duration as an exact nanosecond "
-                  "count with its documented range; ASCII only (multi-byte characters outside the bound); DateTime::parse / strftime / "
-                  "Time::parse go through chrono's format interpreter and are outside the claim",
+                  "count with its documented range; ASCII only (multi-byte characters outside the bound); chrono's format interpreter and calendar are "
+                  "replaced by a contract model checked against the real chrono on ~2000 concrete runs per check; DateTime::parse on text not "
+                  "shaped like a listed format and Time::parse are outside the claim",
 }
 READY = True
 
